@@ -157,7 +157,9 @@ func (s *jwtSigner) Hash() []byte {
 
 	hash := sha256.New()
 	hash.Write(stringx.ToBytes(jwk.KeyID))
+	hash.Write([]byte{0})
 	hash.Write(stringx.ToBytes(jwk.Algorithm))
+	hash.Write([]byte{0})
 	hash.Write(stringx.ToBytes(s.iss))
 
 	return hash.Sum(nil)
